@@ -119,14 +119,58 @@ func classOf(detail string) string {
 	return detail
 }
 
+// amountZeroOnPath: the path has established that the coin amount is zero / empty (so that moving it, adding it or
+// subtracting it changes nothing): IsZero / Empty of the coins themselves, or IsZero of the integer they are built from
+// (NewCoins drops zero coins).
+func amountZeroOnPath(facts FactSet, amt *Term) bool {
+	amt = stripConv(stripSpread(amt))
+	if amt == nil {
+		return false
+	}
+	if facts.Holds(mk("sdk.Coins.IsZero", amt), true) || facts.Holds(mk("nonempty", amt), false) || facts.Holds(mk("sdk.Coins.Empty", amt), true) {
+		return true
+	}
+	if b, ok := amt.Match("(sdk.NewCoins (sdk.NewCoin $D $A))"); ok {
+		a := stripConv(b["$A"])
+		if facts.Holds(mk("sdk.Int.IsZero", a), true) || facts.Holds(mk("sdk.Int.IsPositive", a), false) {
+			return true
+		}
+	}
+	return false
+}
+
 func (c *Check) judgeDepositPath(pp *PersistPath, bank []*Eff) (bool, string) {
+	// custody operations of an amount the path knows to be zero move nothing
+	{
+		var nb []*Eff
+		for _, e := range bank {
+			if !amountZeroOnPath(pp.Facts, e.Amount) {
+				nb = append(nb, e)
+			}
+		}
+		bank = nb
+	}
+	zeroSub := func(v *Term) bool {
+		// Deposit − s with s known to be zero on the path
+		v = stripConv(v)
+		if v.Op == "res" && len(v.A) == 2 && v.A[0].IsAt("0") && v.A[1].Op == "sdk.Coins.SafeSub" && len(v.A[1].A) == 2 {
+			return amountZeroOnPath(pp.Facts, v.A[1].A[1])
+		}
+		if (v.Op == "sdk.Coins.Sub" || v.Op == "sdk.Coins.Add") && len(v.A) == 2 {
+			return amountZeroOnPath(pp.Facts, v.A[1])
+		}
+		return false
+	}
 	if len(pp.Stored) == 0 {
 		if len(bank) > 0 {
 			return false, "custody-without-persist: path performs " + effDesc(bank[0]) + " on the deposit account but persists no binding"
 		}
 		// unpersisted Deposit writes
 		for _, ev := range pp.Path.Events {
-			if ev.Kind == EvWrite && ev.Struct == "ServiceBinding" && ev.Field == "Deposit" {
+			if ev.Kind == EvWrite && ev.Struct == "ServiceBinding" && ev.Field != "Deposit" {
+				return false, "write-not-persisted: " + ev.Field + " is written but the binding is not persisted on this path (the change is lost)"
+			}
+			if ev.Kind == EvWrite && ev.Struct == "ServiceBinding" && ev.Field == "Deposit" && !(ev.Val != nil && zeroSub(ev.Val)) {
 				return false, "write-not-persisted: Deposit is written but the binding is not persisted on this path"
 			}
 		}
@@ -160,6 +204,9 @@ func (c *Check) judgeDepositPath(pp *PersistPath, bank []*Eff) (bool, string) {
 		return false, fmt.Sprintf("top-up: Deposit grows by %s without exactly one transfer-in of that value (custody ops: %d)", shortTerm(d), len(bank))
 	case dep.Op == "res" && len(dep.A) == 2 && dep.A[0].IsAt("0") && dep.A[1].Op == "sdk.Coins.SafeSub" && dep.A[1].A[0].Eq(old):
 		s := dep.A[1].A[1]
+		if len(bank) == 0 && amountZeroOnPath(pp.Facts, s) {
+			return true, "slash-of-zero: the slashed amount is zero on this path: the deposit is unchanged and nothing is burned"
+		}
 		if len(bank) == 1 && bank[0].Op == "BurnCoins" && termsEq(bank[0].Amount, s) {
 			// the negative-result edge must not be taken
 			neg := Fact{T: mk("res", atom("1"), dep.A[1])}
@@ -222,6 +269,15 @@ func (c *Check) depositRefundGuards(rule string) {
 					T = f.T.A[1] // ¬(now < T)
 				} else if f.T.Op == "time.Time.After" && len(f.T.A) == 2 && f.T.A[1].IsAt("BlockTime") {
 					T = f.T.A[0] // ¬(T > now)
+				}
+				if f.T.Op == "<" && len(f.T.A) == 2 {
+					// ¬(0 < T − now) and ¬(now − T < 0): the same comparison written on the remaining duration
+					l, r := stripConv(f.T.A[0]), stripConv(f.T.A[1])
+					if v, ok := intConst(l); ok && v == 0 && r.Op == "time.Time.Sub" && len(r.A) == 2 && r.A[1].IsAt("BlockTime") {
+						T = r.A[0]
+					} else if v, ok := intConst(r); ok && v == 0 && l.Op == "time.Time.Sub" && len(l.A) == 2 && l.A[0].IsAt("BlockTime") {
+						T = l.A[1]
+					}
 				}
 				if T == nil {
 					continue
